@@ -98,6 +98,87 @@ Theorem C07_T4_integer : forall s b d,
 Proof. exact int_correct. Qed.
 Print Assumptions C07_T4_integer.
 
+(** T4, second half: string literals.  A lexically well-formed literal free of
+    the root causes of [rc_lit] -- plain, language-tagged, typed with a wired
+    prefix (xsd: rdf: dt: geo: bound as wired) or with an <IRI> -- gets the
+    datatype the spec assigns to it; with the IRI, blank-node and integer cases
+    this gives the object hypothesis of T1. *)
+From Shexer Require Import Proofs.TtlLiteral Proofs.TtlClean Proofs.TtlTokens Proofs.TtlCompose.
+
+Theorem C07_T4_literal : forall e s lex sfx o,
+  env_match e s -> okL e lex sfx = true -> sem_obj e (OLit lex sfx) = Some o ->
+  exists dt, decide_literal_type (render_obj (OLit lex sfx)) (base s) = Ok dt /\ erase_obj o = OL [] dt.
+Proof. exact literal_type. Qed.
+Print Assumptions C07_T4_literal.
+
+Theorem C07_T4_object : forall e s0 x o s,
+  env_match e s0 -> same_env s s0 -> okO e x = true -> sem_obj e x = Some o ->
+  closure_state (tokO s0 x) = None /\
+  exists raw o', parse_elem s (tokO s0 x) = Ok (Some raw) /\
+                 tune_token (Some raw) (base s) ttl_dflt_allow_untyped_numbers = Ok o' /\
+                 erase_obj o' = erase_obj o.
+Proof. exact obj_correct. Qed.
+Print Assumptions C07_T4_object.
+
+(** T1 + T4: statement groups in a fixed environment, split into lines anywhere *)
+Theorem C07_T1_T4 : forall e s0 gs (ls : list (list atok)) tss s,
+  env_match e s0 -> same_env s s0 -> state s = WS ->
+  forallb (group_dom e) gs = true ->
+  seq_opt (map (sem_group e) gs) = Some tss ->
+  List.concat ls = flat_map group_tokens gs ->
+  exists s' ts', machine_lines (map (map (tok_str s0)) ls) s = (ts', Ok s') /\
+                 map erase_lex ts' = map erase_lex (List.concat tss) /\ same_env s' s0 /\ state s' = WS.
+Proof. exact groups_any_split. Qed.
+Print Assumptions C07_T1_T4.
+
+(** T3 (cleaning), partial.  [norm] = the white-space part of [_clean_line]
+    (CR/LF/TAB to blank, runs of blanks to one, strip).  On a line made of a
+    run of blanks/tabs, words (no CR/LF/TAB, no two blanks in a row, no white
+    space at either end) separated by non-empty runs of blanks/tabs, and
+    optionally '#' and a comment after a non-empty run: *)
+(** (a) without comment the result is the words joined by single blanks *)
+Theorem C07_T3_plain : forall lead pairs,
+  hspace lead = true -> forallb (fun wg => word_ok (fst wg)) pairs = true -> pair_gaps_ok pairs = true ->
+  pairs <> [] -> Forall word_nohash (map fst pairs) ->
+  clean_line (lead ++ render_pairs pairs) = Ok (jwords pairs).
+Proof. exact clean_words_plain. Qed.
+Print Assumptions C07_T3_plain.
+
+(** (b) with a comment, when neither the words nor the comment contain a
+    quote, exactly the comment (and the blank before it) is removed *)
+Theorem C07_T3_comment_partial : forall lead pairs,
+  hspace lead = true -> forallb (fun wg => word_ok (fst wg)) pairs = true -> pair_gaps_ok pairs = true ->
+  pairs <> [] -> Forall word_nohash (map fst pairs) ->
+  forall cmt, last_gap_empty pairs = false ->
+  Forall (fun wg => quote_free (fst wg) /\ quote_free (snd wg)) pairs -> quote_free cmt ->
+  clean_line (lead ++ render_pairs pairs ++ Str "#" ++ cmt) = Ok (jwords pairs).
+Proof. exact clean_words_comment. Qed.
+Print Assumptions C07_T3_comment_partial.
+(** Missing from T3: lines that carry a string literal AND a comment (or
+    blank-# inside a literal): there [_remove_comments_if_needed] takes the
+    quote-scanning path; its known faults are C07-F10/F11/F12, its correct
+    cases are covered by the correspondence check only. *)
+
+(** C07 (partial): the composition T3 ; T2 ; T1 ; T4 on whole documents.
+    [C07_partial_dom ls d] = [C07_dom ls d] (no root cause of a known finding)
+    && every line [line_simple] && [d] is directives-then-groups.
+    For every such document [d] = directives then statement groups, every layout
+    [ls] of it (line breaks at ANY token boundary, tabs / repeated blanks,
+    whole-line and trailing comments), inside [C07_dom] (no root cause of a
+    known finding) and with [line_simple] lines (a line with a string literal
+    carries no comment and no blank-# inside a literal; comments elsewhere are
+    quote-free), the reader run on the TEXT of the document yields exactly
+    the triples of the document (up to lexical forms), in order, raises
+    nothing, does not hang, and ends waiting for a subject.
+    Missing for the full C07: directives between statement groups, and the
+    lines excluded by [line_simple] (see T3). *)
+Theorem C07_partial : forall ls d ts,
+  lays_out ls d -> C07_partial_dom ls d = true -> sem d = Some ts ->
+  exists s' ts', read_ttl (render_doc ls) = (ts', Ok s') /\
+                 map erase_lex ts' = map erase_lex ts /\ state s' = WS.
+Proof. exact reader_correct_dom. Qed.
+Print Assumptions C07_partial.
+
 (** Rejection.  The two syntactic escapes the code tests end in ValueError,
     never in different triples: (1) a closing quote followed by a character
     that is neither a blank, [^], [@] nor the end of the line; (2) a further
@@ -163,6 +244,34 @@ Example C07_dom_inhabited :
 Proof.
   split; [repeat split; vm_compute; reflexivity|]. split; [vm_compute; reflexivity|].
   eexists. split; [vm_compute; reflexivity|]. split; vm_compute; reflexivity.
+Qed.
+
+(** non-vacuity of [C07_partial]: prologue + groups, line breaks inside the
+    statement, comments on lines without literal, literals on comment-free lines *)
+Definition ex2_dirs : list directive := [DPrefix (Str "ex") (IAbs (Str "http://e/")); DPrefix (Str "xsd") (IAbs xsd_ns)].
+Definition ex2_gs : list group :=
+  [Group (SIri (ex "s"))
+         [(PA, [OIri (ex "C")]);
+          (PIri (ex "p"), [OLit (Str "a#b; c") (LLang (Str "en")); OLit (Str "5") (LTyped (IPre (Str "xsd") (Str "integer"))); OInt (Str "42")])];
+   Group (SBn (Str "b1")) [(PIri (IAbs (Str "http://e/q")), [OBn (Str "b2")])]].
+Definition ex2_lines : list line :=
+  [L_ex; LDir (Str " ") (DPrefix (Str "xsd") (IAbs xsd_ns)) [sp; Str "  "; sp; sp] (Some (Str " the XSD namespace"));
+   LToks [] [] (Some (Str " a comment"));
+   LToks [] [] None;
+   LToks [] [(ASubj (SIri (ex "s")), [])] None;
+   LToks (Str "  ") [(APred PA, sp); (AObj (OIri (ex "C")), sp); (ASemi, sp)] (Some (Str " trailing"));
+   LToks [ascii_of_nat 9] [(APred (PIri (ex "p")), sp); (AObj (OLit (Str "a#b; c") (LLang (Str "en"))), sp); (AComma, [])] None;
+   LToks [] [(AObj (OLit (Str "5") (LTyped (IPre (Str "xsd") (Str "integer")))), sp); (AComma, sp); (AObj (OInt (Str "42")), [])] None;
+   LToks [] [(ADot, sp); (ASubj (SBn (Str "b1")), [])] None;
+   LToks [] [(APred (PIri (IAbs (Str "http://e/q"))), sp); (AObj (OBn (Str "b2")), sp); (ADot, sp)] (Some [])].
+
+Example C07_partial_inhabited :
+  lays_out ex2_lines (map IDir ex2_dirs ++ map IGrp ex2_gs) /\
+  C07_partial_dom ex2_lines (map IDir ex2_dirs ++ map IGrp ex2_gs) = true /\
+  exists ts, sem (map IDir ex2_dirs ++ map IGrp ex2_gs) = Some ts /\ List.length ts = 5%nat.
+Proof.
+  split; [repeat split; vm_compute; reflexivity|]. split; [vm_compute; reflexivity|].
+  eexists. split; vm_compute; reflexivity.
 Qed.
 
 (** the full statement of the property, for one laid-out document *)
